@@ -551,3 +551,36 @@ Qed.
 
 Lemma ra_check_then_act_refuted : ra_safe (ra_run 0 [RaCheck; RaNotarize; RaAct]) = false.
 Proof. reflexivity. Qed.
+
+(* ------------------------------------------------------------------------------------------ *)
+(* 9. AddVRFShare is atomic under the mutex *)
+Lemma av_atomic_pair : forall threshold i s,
+  (length (av_shares s) <= threshold)%nat -> av_passed s = [] ->
+  let s' := av_exec threshold (av_exec threshold s (AvCheck i)) (AvInsert i) in
+  (length (av_shares s') <= threshold)%nat /\ av_passed s' = [].
+Proof.
+  intros threshold i [sh ps] Hl Hp. cbn in Hl, Hp. subst ps. unfold av_exec at 2. cbn [av_shares av_passed].
+  destruct (Nat.ltb_spec (length sh) threshold).
+  - unfold av_exec. cbn [av_shares av_passed existsb filter]. rewrite Nat.eqb_refl. cbn [orb andb negb].
+    destruct (existsb (Nat.eqb i) sh); cbn; split; try reflexivity; lia.
+  - unfold av_exec. cbn. split; [lia|reflexivity].
+Qed.
+
+Lemma av_atomic_bounded_gen : forall threshold threads s,
+  (length (av_shares s) <= threshold)%nat -> av_passed s = [] ->
+  let s' := fold_left (av_exec threshold) (av_atomic_schedule threads) s in
+  (length (av_shares s') <= threshold)%nat /\ av_passed s' = [].
+Proof.
+  intros threshold. induction threads as [|i tl IH]; intros s Hl Hp; cbn [av_atomic_schedule flat_map app fold_left]; [auto|].
+  destruct (av_atomic_pair threshold i s Hl Hp) as [H1 H2]. now apply IH.
+Qed.
+
+Lemma av_atomic_bounded : forall threshold threads,
+  (length (av_shares (av_run threshold (av_atomic_schedule threads))) <= threshold)%nat.
+Proof.
+  intros. unfold av_run. apply (av_atomic_bounded_gen threshold threads); cbn; [lia|reflexivity].
+Qed.
+
+Lemma av_split_refuted :
+  length (av_shares (av_run 1 [AvCheck 0; AvCheck 1; AvInsert 0; AvInsert 1])) = 2%nat.
+Proof. reflexivity. Qed.
